@@ -22,6 +22,9 @@ func init() {
 	gens["C09"] = genC09
 	execs["batch"] = execBatch
 	isolatedOps["batch"] = true
+	execs["batchfresh"] = execBatch
+	isolatedOps["batchfresh"] = true
+	freshOps["batchfresh"] = true
 }
 
 func genC09(cfg Config, emit Emit) error {
@@ -89,6 +92,31 @@ func genC09(cfg Config, emit Emit) error {
 			conc = 2 + r.Intn(5)
 		}
 		emit("batch", []string{"C09", mustJSON(w), itoa(r.Intn(1 << 30)), itoa(procs), itoa(conc)}, fmt.Sprintf("size%d/procs%d/conc%d", size, procs, conc), size > 1)
+	})
+	// batches that are the first thing their process does with the library: several session-backed
+	// (non-key issuer) and plain invocations validated concurrently before anything was validated
+	nf := 12
+	if cfg.Thorough() {
+		nf = 48
+	}
+	j := 0
+	genWorlds(cfg, nf, genOpts{minDepth: 1, maxDepth: 3, sessions: true, sessionPct: 100, properSession: j%2 == 0, kinds: []string{"none", "none", "expired"}}, func(w *AWorld, class string) {
+		j++
+		w.Services = []ASvc{{Can: w.Desc.Can, Result: "ok"}}
+		main := w.Tokens[w.Inv]
+		w.Invs = []int{w.Inv}
+		for k := 1; k < 3+j%6; k++ {
+			t := main
+			t.Caps = append([]ACap(nil), main.Caps...)
+			t.Prfs = append([]int(nil), main.Prfs...)
+			t.Inline = append([]bool(nil), main.Inline...)
+			t.Nonce = fmt.Sprintf("f%d", k)
+			t.ID = len(w.Tokens)
+			w.Tokens = append(w.Tokens, t)
+			w.Invs = append(w.Invs, t.ID)
+		}
+		normalize(w)
+		emit("batchfresh", []string{"C09", mustJSON(w), itoa(cfg.Rng.Intn(1 << 30)), itoa([]int{2, 4, 16}[j%3]), itoa(1 + j%2)}, "fresh-process/"+class, true)
 	})
 	return nil
 }
